@@ -276,8 +276,11 @@ func propC12(c c12Case) (ev.Outcome, error) {
 }
 
 func runC12(t *testing.T, driver string) {
+	if leg := ev.ReplayLeg(); ev.Replaying() && leg != "" && leg != t.Name() {
+		t.Skipf("replay file is for leg %s", leg)
+	}
 	col := ev.Get("C12")
-	ev.Check(t, col, ev.Scale(1200, 8000), genC12(driver, col), propC12)
+	ev.Check(t, col, ev.Scale(1200, 5000), genC12(driver, col), propC12)
 }
 
 func TestC12_npm_relax(t *testing.T)      { runC12(t, drvNpmRelax) }
